@@ -218,6 +218,10 @@ class _FilesystemDataSource(DataSource):
         # Remove objects
         for match in versions_dir.glob("*/{}".format(basename)):
             match.unlink()
+            # A link that was staged next to the object but never published (its writer
+            # died before the rename) goes with it
+            for leftover in match.parent.glob("{}.link.tmp".format(basename)):
+                leftover.unlink()
             match.parent.rmdir()  # remove uuid dir as well
         if len(list(versions_dir.iterdir())) == 0:
             versions_dir.rmdir()
